@@ -227,13 +227,20 @@ def check(P, R):
     ed = P.func(f'{MP}:BodyMarkuper._eat_data')
     ge = ed.cfg
     loops = [n for n in walk_shallow(ed.node) if isinstance(n, ast.While)]
-    floops = [n for n in walk_shallow(ed.node) if isinstance(n, ast.For) and isinstance(n.iter, ast.Call) and dotted(n.iter.func) == 'range'
+    def _range_of(n_):
+        it_ = n_.iter
+        if isinstance(it_, ast.Name):
+            ds_ = ed.rd.at(ge.nodes_for(n_)[0], it_.id)
+            if len(ds_) == 1 and ds_[0].value is not None:
+                it_ = ds_[0].value
+        return it_ if isinstance(it_, ast.Call) and dotted(it_.func) == 'range' else None
+    floops = [n for n in walk_shallow(ed.node) if isinstance(n, ast.For) and _range_of(n) is not None
               and any(isinstance(x, ast.Call) and call_attr(x) == 'match_tail' for x in walk_shallow(n))]
     if not loops and floops:
         # `for start in range(a, b, step)`: finitely many windows, provided the step is the (positive) delimiter length
         from . import c06 as _c06
         er = _c06.eat_data_roles(P)
-        rg = floops[0].iter
+        rg = _range_of(floops[0])
         okf = len(rg.args) == 3 and src(rg.args[2]) == er['tlen']
         R.ob('C12.d', ed, floops[0], okf, text=f'delimiter search: for .. in {short(rg)} (finite)', detail='' if okf else
              'the step of the window range is not the delimiter length')
@@ -287,6 +294,21 @@ def check_size_line_cap(P, R, rid):
             cnts.add(lp_.target.id)
             inc = inc or [lp_]
     cap = [n for n in gc.nodes if n.kind == 'test' and 'buff_size' in names_loaded(T.expand(fc, n.ast, n, keep=tuple(cnts))) and cnts & names_loaded(n.ast)]
+    if not cap:
+        # the count may be the length of a list that receives every byte read (one append per read, in the scanning loop)
+        reads_ = [c for c in walk_shallow(fc.node) if isinstance(c, ast.Call) and isinstance(c.func, ast.Name) and c.func.id == fc.params[0] and c.args and is_const(c.args[0], 1)]
+        for n in gc.nodes:
+            if n.kind != 'test' or n.ast is None or 'buff_size' not in names_loaded(n.ast):
+                continue
+            for x in ast.walk(n.ast):
+                if isinstance(x, ast.Call) and dotted(x.func) == 'len' and x.args and isinstance(x.args[0], ast.Name):
+                    lst = x.args[0].id
+                    lp_ = [l for l in T.loops_of(n.ast)]
+                    apps = [c for c in walk_shallow(fc.node) if isinstance(c, ast.Call) and call_attr(c) == 'append' and dotted(c.func.value) == lst and lp_ and T._inside(c, lp_[0].body)]
+                    rd_in = [c for c in reads_ if lp_ and T._inside(c, lp_[0].body)]
+                    if apps and rd_in and len(apps) >= len(rd_in):
+                        cap.append(n)
+                        inc = inc or apps
     ok = False
     for n in cap:
         reach = gc.reachable_from(T.succ_by_label(n, 'true'))
